@@ -407,7 +407,12 @@ func (e *env) request(world *World, docBytes []byte, q ReqSpec, again bool) (han
 		}
 		return errors.New("rejected")
 	}
-	neutral := func(v ValOpts) (nverr error, ok bool) {
+	acceptAll := func(context.Context, *openapi3filter.AuthenticationInput) error { return nil }
+	neutral := func(v ValOpts, auths ...openapi3filter.AuthenticationFunc) (nverr error, ok bool) {
+		nAuth := openapi3filter.AuthenticationFunc(nAuth)
+		if len(auths) > 0 {
+			nAuth = auths[0]
+		}
 		neutralWorld, err := LoadWorld(docBytes)
 		if err != nil {
 			res.Inconcl = "neutral world: " + err.Error()
@@ -444,6 +449,21 @@ func (e *env) request(world *World, docBytes []byte, q ReqSpec, again bool) (han
 	if !ok {
 		return
 	}
+	// the parts that fail whatever the callback says (parameters, body): a multi-error neutral run with a
+	// callback that accepts everything
+	var okParts []string
+	okPartsDone := false
+	partsWithAcceptingCallback := func() []string {
+		if !okPartsDone {
+			okPartsDone = true
+			vm := s.Vals[0]
+			vm.MultiError = true
+			if all, ok := neutral(vm, acceptAll); ok {
+				okParts = parts(all)
+			}
+		}
+		return okParts
+	}
 	// in fail-fast mode which failing part is named first is not the property's business (it may follow
 	// map order): the one part named has to be among all the failing parts, which a multi-error neutral run gives
 	nAllParts := parts(nverr)
@@ -474,6 +494,9 @@ func (e *env) request(world *World, docBytes []byte, q ReqSpec, again bool) (han
 		}
 		if q.CLZero {
 			req.ContentLength = 0
+		}
+		if q.CLSmall && len(orig) >= 2 {
+			req.ContentLength = int64(len(orig) / 2)
 		}
 		origCL := req.ContentLength
 		_ = origCL
@@ -528,7 +551,7 @@ func (e *env) request(world *World, docBytes []byte, q ReqSpec, again bool) (han
 		case strings.HasPrefix(mode, "read"), mode == "close_ok", mode == "sig":
 			data := readAll()
 			res.Probe("auth-read-all")
-			if faultBefore && r.Body != nil && readErr == nil && len(data) < len(orig) {
+			if faultBefore && r.Body != nil && readErr == nil && len(data) < len(orig) && bytes.HasPrefix(orig, data) {
 				// whatever the verdict: after a failed read the callback may find the error again, never a
 				// shorter body that ends as if it were complete
 				authTruncated = fmt.Sprintf("after the stream failed with %q, the callback for %q was handed a body of %d of %d bytes that ends with a clean EOF", q.Chunk.FaultKind, in.SecuritySchemeName, len(data), len(orig))
@@ -612,6 +635,16 @@ func (e *env) request(world *World, docBytes []byte, q ReqSpec, again bool) (han
 			// (only where the verdict needs the bytes: a declared request body that is validated. Where
 			// nothing has to look at the body, accepting is what the property demands.)
 			needsBody := s.Doc.BodyKind != "" && !s.Vals[i].ExcludeBody
+			intact := nverr // what the intact request deserves under this validation's options
+			if i > 0 && s.Vals[i] != s.Vals[0] {
+				intact, _ = neutral(s.Vals[i])
+			}
+			if needsBody && q.GetBody == "ok" && verdicts[i] == nil && intact == nil {
+				// the request carries a GetBody that yields the complete body: a library that goes back to it after
+				// a failed read has every byte, and accepting what the intact request deserves is right
+				res.Probe("fault-recoverable-through-getbody")
+				continue
+			}
 			if needsBody && verdicts[i] == nil && strings.HasPrefix(st.FaultSeenBy, fmt.Sprintf("validator#%d", i+1)) {
 				violate("C07", "fault-accept", "accept-after-stream-error", fmt.Sprintf("validation #%d accepted although a Read it issued returned %q", i+1, q.Chunk.FaultKind))
 			}
@@ -625,6 +658,10 @@ func (e *env) request(world *World, docBytes []byte, q ReqSpec, again bool) (han
 				fmt.Sprintf("validation #1 says %v; the same request as one in-memory chunk with a non-reading callback says %v (chunk plan %+v, GetBody=%q, ContentLength unknown=%v, auth=%v)", verdicts[0], nverr, q.Chunk, q.GetBody, q.CLUnknown, s.Auth))
 		} else if got, want := parts(verdicts[0]), nAllParts; s.Vals[0].MultiError && !reflect.DeepEqual(got, want) {
 			violate("C07", "failing-parts", "failing-parts", fmt.Sprintf("failing parts %v; neutral run %v (multi-error=%v, auth=%v)", got, want, s.Vals[0].MultiError, s.Auth))
+		} else if s.Vals[0].MultiError && !partsIndependent(got, partsWithAcceptingCallback(), SecurityModel(s.Doc, func(name string, scopes []string) bool { return acceptsScoped(s.Auth[name], scopes) })) {
+			// "the errors returned are exactly the failing parts": whether parameters and body fail does not
+			// depend on what the callback says, and the security part is what the requirement semantics say
+			violate("C07", "failing-parts", "failing-parts-not-independent", fmt.Sprintf("multi-error validation reports %v; with a callback accepting everything the same request fails in %v, and the requirement semantics say security passes=%v: the failing parts are not their union (auth=%v)", got, partsWithAcceptingCallback(), SecurityModel(s.Doc, func(name string, scopes []string) bool { return acceptsScoped(s.Auth[name], scopes) }), s.Auth))
 		} else if !s.Vals[0].MultiError && !subset(got, want) {
 			violate("C07", "failing-parts", "failing-parts", fmt.Sprintf("fail-fast validation names %v, which is not among the failing parts %v of the neutral run (auth=%v)", got, want, s.Auth))
 		}
@@ -690,7 +727,7 @@ func (e *env) request(world *World, docBytes []byte, q ReqSpec, again bool) (han
 					accepted = false
 				}
 			}
-			if accepted && req.Body != nil && finalErr == nil && len(final) < len(orig) && !(q.BodyMode == "nil" || q.BodyMode == "nobody") {
+			if accepted && req.Body != nil && finalErr == nil && len(final) < len(orig) && bytes.HasPrefix(orig, final) && !(q.BodyMode == "nil" || q.BodyMode == "nobody") {
 				violate("C13", "R1-readable", "silently-truncated-body", fmt.Sprintf("the stream failed with %q after %d bytes; the request was accepted and the next handler reads %d of %d bytes followed by a clean EOF (ContentLength %d)", q.Chunk.FaultKind, q.Chunk.FaultAt, len(final), len(orig), req.ContentLength))
 			}
 			return
@@ -766,7 +803,7 @@ func (e *env) request(world *World, docBytes []byte, q ReqSpec, again bool) (han
 				}
 			}
 			// ContentLength and GetBody bookkeeping
-			untouchedZero := q.CLZero && req.ContentLength == 0 // "unknown" left as received
+			untouchedZero := (q.CLZero && req.ContentLength == 0) || (q.CLSmall && req.ContentLength == int64(len(orig)/2)) // left as received
 			if req.ContentLength != -1 && !untouchedZero && req.ContentLength != int64(len(final)) && !(req.Body == nil || q.BodyMode == "nil" || q.BodyMode == "nobody") {
 				violate("C13", "R1-content-length", bodySig("content-length"), fmt.Sprintf("ContentLength=%d but %d bytes are readable", req.ContentLength, len(final)))
 			}
@@ -893,6 +930,30 @@ func rewriteFailed(err error) bool {
 		return x.RequestBody != nil && errors.As(x.Err, &pe) && pe.Kind == openapi3filter.KindUnsupportedFormat
 	}
 	return false
+}
+
+// partsIndependent: got == (parts failing under an all-accepting callback, minus
+// security ones) ∪ ({security} if the requirement semantics say it fails).
+func partsIndependent(got, withAccepting []string, securityPasses bool) bool {
+	want := map[string]bool{}
+	for _, p := range withAccepting {
+		if p != "security" && p != "request" {
+			want[p] = true
+		}
+	}
+	have := map[string]bool{}
+	sec := false
+	for _, p := range got {
+		if p == "security" || p == "request" {
+			sec = true
+			continue
+		}
+		have[p] = true
+	}
+	if sec == securityPasses {
+		return false
+	}
+	return reflect.DeepEqual(have, want) || (len(have) == 0 && len(want) == 0)
 }
 
 func subset(a, b []string) bool {
